@@ -1,15 +1,21 @@
 (** Kernel-checked facts about the binary64 arithmetic of the model (the model at [FOps], which
     reproduces the Rust code at [f64] bit for bit -- see FloatExec.v and Proofs/FltCases.v).
 
-    Refutations of the floating-point clauses of C16 ("after a volatile stretch followed by >= N+1
-    identical values each view reports the exact flat-window answer to within 1e-4 of scale") and of
-    the ulps clause of C07 ("the bounds hold up to a few ulps"), each with a concrete stream, proved
-    by [vm_compute] over primitive floats.  For every witness the exact model ([QOps]) is run on the
-    very same real numbers ([map q_of_f xs]) to exhibit the exact answer next to the f64 one, and a
-    [_stuck] theorem shows that the wrong answer never goes away: it is reported after EVERY longer
-    flat tail as well (the state is a fixed point of the update). *)
+    Rsi / MyRSI (D14, repaired in the code): the flat-window clause of C16 ("after a volatile stretch
+    followed by >= N+1 identical values each view reports the exact flat-window answer") now HOLDS at
+    f64 bit for bit, for every window length and every stream ([rsi_flat_f64], [myrsi_flat_f64]; proofs
+    in Proofs/FltFlat.v from the IEEE semantics, not by computation).  The refutations of the old code
+    (negative / infinite Rsi, MyRSI outside [-1,1]) are gone with it.
+
+    Vsct / Vst: refutations of the floating-point clause of C16 and of the ulps clause of C07 ("the
+    bounds hold up to a few ulps"), each with a concrete stream, proved by [vm_compute] over primitive
+    floats.  For every witness the exact model ([QOps]) is run on the very same real numbers
+    ([map q_of_f xs]) to exhibit the exact answer next to the f64 one, and a [_stuck] theorem shows that
+    the wrong answer never goes away: it is reported after EVERY longer flat tail as well (the state is
+    a fixed point of the update). *)
 From Coq Require Import List Arith Lia ZArith QArith Floats Bool.
 From SF Require Import Res Scalar View Models Core Spec FloatOps SpecFlt.
+From SF.Proofs Require Import FltFlat.
 Import ListNotations.
 Local Set Warnings "-inexact-float".
 Local Open Scope float_scope.
@@ -49,106 +55,77 @@ Ltac stuck k0 :=
 
 (* ------------------------------------------------------------------------------------------ Rsi *)
 
-(** D14.  Rsi(3): a 1e6 spike, a few ordinary values, then the constant 8.  Exact answer on the flat
-    window: 100.  f64: -0.00104..., for ever. *)
+(** D14 (repaired in the code).  The old code kept running averages of the gains and losses, adding the
+    newest change and subtracting the one that left the window; after a 1e6 spike a rounding residue
+    stayed in them for ever: Rsi(3) on the stream below answered -0.00104... (exact: 100) after every flat
+    tail, Rsi(2) on [rsi_inf_pre] followed by -308.6 answered -infinity, MyRSI(3) on [my_pre] followed
+    by 5.1 answered 2.9999... (exact: the held value 1).  The sums are now recomputed from the window on
+    every update, so nothing of a value survives once it has left the window.  What follows is proved for
+    ALL streams from the IEEE semantics of the primitive operations (Proofs/FltFlat.v), not by running
+    a stream. *)
 Definition rsi_pre : list float := [1e6; 8.13; 3.461; 5.401; 3.311].
 Definition rsi_c : float := 8.
-Definition rsi_bad : float := -0.001044173771404644.
+Definition rsi_inf_pre : list float := [55.3; 527.4; 878.3; 105.7].
+Definition rsi_inf_c : float := -308.6.
 
-(** C16 (flat-window clause) is false of Rsi at f64 *)
-Theorem rsi_flat_f64_refuted :
-  exists (xs : list float) (v : float),
-    flat_tailb (3 + 1) xs = true /\ sall_absleb 1e6 xs = true /\
-    cout (@rsi_core Q QOps 3) (map q_of_f xs) = Ok (Some (100 # 1)%Q) /\      (* exact answer: 100 *)
-    cout (@rsi_core float FOps 3) xs = Ok (Some v) /\
-    sfarb v 100 (1e-4 * 100) = true /\ c16_flat_ok 100 100 v = false.
+(** C16 (flat-window clause) holds of Rsi at f64, bit for bit: for every window length [n] (as a [usize]
+    below 2^63), every prefix [fs] WHATSOEVER (finite or not) and every finite [c], after at least [n+1]
+    copies of [c] the answer is the literal 100 *)
+Theorem rsi_flat_f64 n (fs : list float) (c : float) k :
+  (1 <= n)%nat -> (Z.of_nat n < 2 ^ 63)%Z -> (n + 1 <= k)%nat -> PrimFloat.is_finite c = true ->
+  cout (@rsi_core float FOps n) (fs ++ repeat c k) = Ok (Some (f_ofdec 100 0)).
 Proof.
-  exists (rsi_pre ++ repeat rsi_c 4), rsi_bad. vm_compute. repeat split.
+  intros Hn Hb Hk Hc. apply rsi_flat_f64_gen; try assumption. apply f_ofnat_pos; assumption.
 Qed.
 
-(** ... and the residue never clears: the same wrong value after every flat tail of length >= N+1,
-    where the exact model answers 100 every time *)
-Theorem rsi_flat_f64_stuck : forall k, (3 + 1 <= k)%nat ->
-  cout (@rsi_core float FOps 3) (rsi_pre ++ repeat rsi_c k) = Ok (Some rsi_bad).
-Proof. stuck 4%nat. Qed.
+(** the streams on which the old code answered -0.00104... and -infinity: now exactly 100, for every
+    flat tail (instances of the theorem) *)
+Example rsi_flat_f64_ex : forall k, (3 + 1 <= k)%nat ->
+  cout (@rsi_core float FOps 3) (rsi_pre ++ repeat rsi_c k) = Ok (Some 100).
+Proof. intros k Hk. apply (rsi_flat_f64 3 rsi_pre rsi_c k); [lia | reflexivity | exact Hk | reflexivity]. Qed.
+Example rsi_flat_f64_ex2 : forall k, (2 + 1 <= k)%nat ->
+  cout (@rsi_core float FOps 2) (rsi_inf_pre ++ repeat rsi_inf_c k) = Ok (Some 100).
+Proof. intros k Hk. apply (rsi_flat_f64 2 rsi_inf_pre rsi_inf_c k); [lia | reflexivity | exact Hk | reflexivity]. Qed.
+(** ... also after a prefix containing an infinity and a NaN *)
+Example rsi_flat_f64_ex3 :
+  cout (@rsi_core float FOps 2) ([1; infinity; nan; 2] ++ repeat 0.1 3) = Ok (Some 100).
+Proof. apply (rsi_flat_f64 2 _ 0.1 3); [lia | reflexivity | lia | reflexivity]. Qed.
+
 Theorem rsi_flat_exact : forall k, (3 + 1 <= k)%nat ->
   cout (@rsi_core Q QOps 3) (map q_of_f rsi_pre ++ repeat (q_of_f rsi_c) k) = Ok (Some (100 # 1)%Q).
 Proof. stuck 4%nat. Qed.
 
-(** C07 (Rsi in [0,100], "up to a few ulps") is false of Rsi at f64: a negative output (the witness
-    above: 1e-3 below 0, where an ulp of 100 is 1.4e-14) ... *)
-Theorem rsi_range_f64_refuted :
-  exists (xs : list float) (v : float),
-    sall_absleb 1e6 xs = true /\
-    cout (@rsi_core float FOps 3) xs = Ok (Some v) /\ PrimFloat.ltb v (-1e-4) = true.
-Proof.
-  exists (rsi_pre ++ repeat rsi_c 4), rsi_bad. vm_compute. repeat split.
-Qed.
-
-(** ... and a non-finite output without any large value: Rsi(2), inputs of magnitude < 1000 with one
-    decimal, then a constant.  The loss residue becomes exactly -avg_gain, so [rs = -1] and
-    [100 - 100/(1 + rs) = -infinity]; it stays.  (In a debug build this is the panic of
-    [debug_assert!(rsi.is_finite())]: also a counterexample to C08/C15 at f64.) *)
-Definition rsi_inf_pre : list float := [55.3; 527.4; 878.3; 105.7].
-Definition rsi_inf_c : float := -308.6.
-
-Theorem rsi_nonfinite_f64_refuted :
-  exists (xs : list float) (v : float),
-    flat_tailb (2 + 1) xs = true /\ sall_absleb 1000 xs = true /\
-    cout (@rsi_core Q QOps 2) (map q_of_f xs) = Ok (Some (100 # 1)%Q) /\
-    cout (@rsi_core float FOps 2) xs = Ok (Some v) /\
-    PrimFloat.is_finite v = false /\ PrimFloat.ltb v 0 = true.
-Proof.
-  exists (rsi_inf_pre ++ repeat rsi_inf_c 4), neg_infinity. vm_compute. repeat split.
-Qed.
-
-Theorem rsi_nonfinite_f64_stuck : forall k, (4 <= k)%nat ->
-  cout (@rsi_core float FOps 2) (rsi_inf_pre ++ repeat rsi_inf_c k) = Ok (Some neg_infinity).
-Proof. stuck 4%nat. Qed.
-
 (* ---------------------------------------------------------------------------------------- MyRSI *)
 
-(** D14.  MyRSI(3): exact arithmetic holds the previous value (+1) on the flat window; f64 reports
-    2.9999237..., for ever -- which is also outside the documented range [-1,1] by 2. *)
 Definition my_pre : list float := [8.918; 1e6; 1.6; 2.4; 1.8].
 Definition my_c : float := 5.1.
-Definition my_bad : float := 2.9999237078008774.
 
-Theorem myrsi_flat_f64_refuted :
-  exists (xs : list float) (v : float),
-    flat_tailb (3 + 1) xs = true /\ sall_absleb 1e6 xs = true /\
-    cout (@myrsi_core Q QOps 3) (map q_of_f xs) = Ok (Some (1 # 1)%Q) /\      (* exact: held value 1 *)
-    cout (@myrsi_core float FOps 3) xs = Ok (Some v) /\
-    sfarb v 1 (1e-4 * 2) = true /\ c16_flat_ok 1 2 v = false.
-Proof.
-  exists (my_pre ++ repeat my_c 4), my_bad. vm_compute. repeat split.
-Qed.
+(** C16 holds of MyRSI at f64, bit for bit: for every window length, every prefix whatsoever and every
+    finite [c], from the moment the window consists of copies of [c] the answer is HELD: after every
+    longer flat tail MyRSI reports exactly what it reported after [n] copies (when the last change
+    [c - last fs] was still inside the window) -- as in exact arithmetic *)
+Theorem myrsi_flat_f64 n (fs : list float) (c : float) k :
+  (1 <= n)%nat -> (n <= k)%nat -> PrimFloat.is_finite c = true ->
+  cout (@myrsi_core float FOps n) (fs ++ repeat c k) = cout (@myrsi_core float FOps n) (fs ++ repeat c n).
+Proof. apply myrsi_flat_f64_gen. Qed.
+(** with nothing before the flat stretch the held value is the initial 0 *)
+Theorem myrsi_flat_f64_all n (c : float) k :
+  (1 <= n)%nat -> (n <= k)%nat -> PrimFloat.is_finite c = true ->
+  cout (@myrsi_core float FOps n) (repeat c k) = Ok (Some 0).
+Proof. apply FltFlat.myrsi_flat_f64_all. Qed.
 
-Theorem myrsi_flat_f64_stuck : forall k, (3 + 1 <= k)%nat ->
-  cout (@myrsi_core float FOps 3) (my_pre ++ repeat my_c k) = Ok (Some my_bad).
-Proof. stuck 4%nat. Qed.
+(** the streams on which the old code answered 2.9999... (exact: 1) and +1 (exact: -1): now the exact
+    held value, for every flat tail *)
+Example myrsi_flat_f64_ex : forall k, (3 <= k)%nat ->
+  cout (@myrsi_core float FOps 3) (my_pre ++ repeat my_c k) = Ok (Some 1).
+Proof. intros k Hk. rewrite (myrsi_flat_f64 3 my_pre my_c k); [vm_compute; reflexivity | lia | exact Hk | reflexivity]. Qed.
+Example myrsi_flat_f64_ex2 : forall k, (3 <= k)%nat ->
+  cout (@myrsi_core float FOps 3) ([2.5; 6.068; 6.81; 1e6] ++ repeat 8.04 k) = Ok (Some (-1)).
+Proof. intros k Hk. rewrite (myrsi_flat_f64 3 _ 8.04 k); [vm_compute; reflexivity | lia | exact Hk | reflexivity]. Qed.
+
 Theorem myrsi_flat_exact : forall k, (3 + 1 <= k)%nat ->
   cout (@myrsi_core Q QOps 3) (map q_of_f my_pre ++ repeat (q_of_f my_c) k) = Ok (Some (1 # 1)%Q).
 Proof. stuck 4%nat. Qed.
-
-(** C07 (MyRSI in [-1,1]) at f64 *)
-Theorem myrsi_range_f64_refuted :
-  exists (xs : list float) (v : float),
-    sall_absleb 1e6 xs = true /\
-    cout (@myrsi_core float FOps 3) xs = Ok (Some v) /\ PrimFloat.ltb 2.99 v = true.
-Proof.
-  exists (my_pre ++ repeat my_c 4), my_bad. vm_compute. repeat split.
-Qed.
-
-(** a second shape: f64 reports 0.0 where the held value is ... (the sign flips: exact -1, f64 +1) *)
-Theorem myrsi_flat_f64_refuted_sign :
-  exists (xs : list float) (v : float),
-    flat_tailb (3 + 1) xs = true /\ sall_absleb 1e6 xs = true /\
-    cout (@myrsi_core Q QOps 3) (map q_of_f xs) = Ok (Some (-1 # 1)%Q) /\
-    cout (@myrsi_core float FOps 3) xs = Ok (Some v) /\ PrimFloat.eqb v 1 = true.
-Proof.
-  exists ([2.5; 6.068; 6.81; 1e6] ++ repeat 8.04 5), 1. vm_compute. repeat split.
-Qed.
 
 (* ------------------------------------------------------------------------------------------ CTI *)
 
@@ -267,17 +244,11 @@ Example controls_flat_f64_ok :
   flat_ok_on (@cyber_core float FOps 3) 0 1e6 ctl_xs = true.
 Proof. vm_compute. repeat split. Qed.
 
-Print Assumptions rsi_flat_f64_refuted.
-Print Assumptions rsi_flat_f64_stuck.
+Print Assumptions rsi_flat_f64.
 Print Assumptions rsi_flat_exact.
-Print Assumptions rsi_range_f64_refuted.
-Print Assumptions rsi_nonfinite_f64_refuted.
-Print Assumptions rsi_nonfinite_f64_stuck.
-Print Assumptions myrsi_flat_f64_refuted.
-Print Assumptions myrsi_flat_f64_stuck.
+Print Assumptions myrsi_flat_f64.
+Print Assumptions myrsi_flat_f64_all.
 Print Assumptions myrsi_flat_exact.
-Print Assumptions myrsi_range_f64_refuted.
-Print Assumptions myrsi_flat_f64_refuted_sign.
 Print Assumptions cti_range_f64.
 Print Assumptions vsct_bound_f64_refuted.
 Print Assumptions vsct_flat_f64_refuted.
